@@ -781,6 +781,18 @@ class Printer:
                     e = ast.Compare(left=e.left, ops=[flip()], comparators=e.comparators)
                     pol = not pol
                     continue
+                # orderings: only `<` survives --  a > b = b < a ;  a >= b = not (a < b) ;  a <= b = not (b < a)
+                if isinstance(op, ast.Gt):
+                    e = ast.Compare(left=e.comparators[0], ops=[ast.Lt()], comparators=[e.left])
+                    continue
+                if isinstance(op, ast.GtE):
+                    e = ast.Compare(left=e.left, ops=[ast.Lt()], comparators=e.comparators)
+                    pol = not pol
+                    continue
+                if isinstance(op, ast.LtE):
+                    e = ast.Compare(left=e.comparators[0], ops=[ast.Lt()], comparators=[e.left])
+                    pol = not pol
+                    continue
             return e, pol
 
     def show_test(self, e: ast.AST) -> str:
@@ -1033,6 +1045,10 @@ class Printer:
             return f"{sh(e.func)}({inner})"
         if isinstance(e, ast.Starred):
             return f"*{sh(e.value)}"
+        if isinstance(e, ast.BinOp) and isinstance(e.op, (ast.Add, ast.Sub)) and not getattr(e, "_lin_done", False):
+            simp = self._linear_simplify(e)
+            if simp is not None:
+                return sh(simp)
         if isinstance(e, ast.BinOp):
             op = type(e.op).__name__
             l, r = sh(e.left), sh(e.right)
@@ -1140,6 +1156,65 @@ class Printer:
             self._cases(e.orelse, cond + [self._bool(e.test, False)], out)
         else:
             out.setdefault(self._show(e), []).append(tuple(cond))
+
+    def _linear_simplify(self, e: ast.AST) -> Optional[ast.AST]:
+        """x + k - k, (s + 1) - 1, a + 2 + 3: when integer constants fold or terms cancel, the simplified tree; else None."""
+        terms: dict = {}
+        order: list = []
+        const = [0]
+        n_const = [0]
+        n_terms = [0]
+
+        def rec(x: ast.AST, sign: int) -> bool:
+            if isinstance(x, ast.BinOp) and isinstance(x.op, ast.Add):
+                return rec(x.left, sign) and rec(x.right, sign)
+            if isinstance(x, ast.BinOp) and isinstance(x.op, ast.Sub):
+                return rec(x.left, sign) and rec(x.right, -sign)
+            if isinstance(x, ast.UnaryOp) and isinstance(x.op, ast.USub):
+                return rec(x.operand, -sign)
+            if isinstance(x, ast.Constant):
+                if isinstance(x.value, int) and not isinstance(x.value, bool):
+                    const[0] += sign * x.value
+                    n_const[0] += 1
+                    return True
+                return False  # strings etc.: `+` is not arithmetic
+            k = self._show(x)
+            n_terms[0] += 1
+            if k not in terms:
+                terms[k] = [0, x]
+                order.append(k)
+            terms[k][0] += sign
+            return True
+
+        if not rec(e, 1):
+            return None
+        live = [(k, c, x) for k, (c, x) in terms.items() if c != 0]
+        cancelled = len(live) < n_terms[0] and any(c == 0 for c, _ in terms.values())
+        folded = n_const[0] > 1 or (n_const[0] == 1 and const[0] == 0)
+        if not cancelled and not folded:
+            return None
+        pos = []
+        neg = []
+        for k, c, x in sorted(live, key=lambda t: t[0]):
+            tgt = pos if c > 0 else neg
+            for _ in range(abs(c)):
+                tgt.append(copy.deepcopy(x))
+        if const[0] > 0:
+            pos.append(ast.Constant(value=const[0]))
+        elif const[0] < 0:
+            neg.append(ast.Constant(value=-const[0]))
+        if not pos:
+            out: ast.AST = ast.Constant(value=0)
+        else:
+            out = pos[0]
+            for x in pos[1:]:
+                out = ast.BinOp(left=out, op=ast.Add(), right=x)
+        for x in neg:
+            out = ast.BinOp(left=out, op=ast.Sub(), right=x)
+        for n in ast.walk(out):
+            if isinstance(n, ast.BinOp):
+                n._lin_done = True  # type: ignore[attr-defined]
+        return out
 
     @staticmethod
     def _balanced(s: str) -> bool:
